@@ -437,8 +437,12 @@ PLAN["C09"] = {
              [run("hm", t, c=0, opt={"updaters": 0, "steps": 3}, weight=0.3) for t in _it_seq] +
              [run("hm", t, c=1, opt={"keys": 2}, weight=2 if "stamp" in t else 1) for t in _it_conc] +
              [run("hm", t, c=2, opt={"keys": 2, "m": 1}, weight=3) for t in ["iset_lfrc", "imap_b1_memo_scr_hp"]] +
-             [run("hm", t, c=1, heap="reuse", opt={"keys": 2}, weight=1) for t in ["iset_he", "iset_hp"]],
+             [run("hm", t, c=1, heap="reuse", opt={"keys": 2}, weight=1) for t in ["iset_he", "iset_hp"]] +
+             # erase(iterator) that loses its splice while the list behind it shrinks, a later bucket still populated (seed C09d): 0 -> 1 -> 2 | 3, two erasing updaters
+             [run("hm", "imap_b2_31_hp", c=1, opt={"fixed": 2, "nocopy": 1}, weight=1.2), run("hm", "imap_b2_31_memo_ebr", c=1, opt={"fixed": 2, "nocopy": 1}, weight=1.0)],
     "thorough": [run("hm", t, c=0, opt={"updaters": 0, "steps": 4}, weight=1) for t in _it_seq] +
+                [run("hm", "imap_b2_31_hp", c=2, opt={"fixed": 2, "nocopy": 1}, weight=8), run("hm", "imap_b2_31_hp", c=1, opt={"fixed": 2}, weight=3),
+                 run("hm", "imap_b2_31_memo_ebr", c=1, opt={"fixed": 2}, weight=3), run("hm", "imap_b2_31_hp", c=1, opt={"keys": 4, "m": 1, "updaters": 2, "prefill": 15}, weight=6)] +
                 [run("hm", t, c=2, heap="reuse", opt={"keys": 2}, weight=3) for t in ["iset_he", "iset_hp", "imap_b1_he", "iset_lfrc"]] +
                 # re-scan from a position behind the head while three updaters change the list (seed C09c); library asserts armed (dbg)
                 [run("hm", t, c=2, variant="dbg", opt={"fixed": 1, "steps": 3}, weight=6) for t in ["iset_hp", "imap_b1_hp"]] +
@@ -447,7 +451,7 @@ PLAN["C09"] = {
                 [run("hm", t, c=2, opt={"keys": 2}, weight=8 if "stamp" in t else 4) for t in _it_conc] +
                 [run("hm", t, c=1, opt={"keys": 3, "m": 2}, weight=3) for t in ["iset_hp", "imap_b1_memo_scr_hp", "iset_lfrc", "imap_b2_memo_scr_hp"]] +
                 [run("hm", t, c=1, opt={"keys": 2, "m": 1, "updaters": 2}, weight=3) for t in ["iset_hp", "imap_b1_memo_scr_hp", "iset_ebr", "iset_lfrc"]],
-    "budget_s": {"quick": 150, "thorough": 1200},
+    "budget_s": {"quick": 170, "thorough": 1300},
     "rule": "a traversing thread (begin, dereference, then per position an enumerated choice of ++, continue on a copy while the original is destroyed, or it = erase(it)) "
             "against 1-2 updater threads running enumerated emplace/erase programs on 2-3 keys, all non-empty prefill subsets; sequential runs: the traversing thread itself "
             "performs an enumerated erase/emplace of any key through the container between iterator steps (up to 3-4 steps); HP/HE with 8 static slots; oracle on the recorded "
